@@ -986,6 +986,215 @@ Proof.
   unfold row_len. fold n. lia.
 Qed.
 
+(** ** beyond the end: [get_seq_index] keeps counting, the sequence slice clamps *)
+
+Lemma get_seq_index_beyond m x : IndelMapSpec.WF m -> len m <= x ->
+  get_seq_index m x = Ok (parent_length m + (x - len m)).
+Proof.
+  intros Hm Hx. pose proof (proj1 (WF_WFi m) Hm) as Hwfi.
+  assert (Hl : 0 <= len m) by (rewrite <- (zlen_abs_len m Hm); apply zlen_nonneg).
+  unfold get_seq_index. replace (x <? 0) with false by lia. replace (x <? 0) with false by lia.
+  destruct (seq_index_nn_rel m Hwfi x ltac:(lia)) as (s & E & _ & R2). rewrite E. f_equal.
+  pose proof (n_nonneg m) as Hn.
+  rewrite (R2 (num_gaps m)); [rewrite (len_eq m Hwfi); lia|lia| |lia].
+  intros Hpos. pose proof (ge_le_len m Hwfi (num_gaps m - 1) ltac:(lia)). lia.
+Qed.
+
+Lemma py_slice_clamped {A} (l : list A) x y : 0 <= x -> x <= zlen l -> x <= y ->
+  py_slice l (Some x) (Some y) 1 = msub l x (Z.min y (zlen l)).
+Proof.
+  intros Hx Hxl Hxy. pose proof (zlen_nonneg l) as Hn.
+  rewrite <- py_slice_msub by lia. rewrite !py_slice_unfold. f_equal.
+  assert (E : adjust_bound (zlen l) 1 true (Some y) = adjust_bound (zlen l) 1 true (Some (Z.min y (zlen l)))).
+  { unfold adjust_bound. replace (1 <? 0) with false by lia.
+    replace (y <? 0) with false by lia. replace (Z.min y (zlen l) <? 0) with false by lia.
+    destruct (y >=? zlen l) eqn:E1; destruct (Z.min y (zlen l) >=? zlen l) eqn:E2; lia. }
+  rewrite E. reflexivity.
+Qed.
+
+Lemma seq_slice_py d x y : SWF d ->
+  exists d', seq_slice d x y = Ok d' /\ SWF d' /\ skind d' = skind d /\ realise d' = py_slice (realise d) x y 1.
+Proof.
+  intros Hd. unfold seq_slice. cbn [View.apply_op].
+  pose proof (slice_op_spec d x y None Hd ltac:(discriminate)) as H.
+  destruct (with_view d (same_parent (sv d)) (View.getitem_slice FSeqView (sv d) x y None)) as [d'|e]; [|contradiction].
+  destruct H as (Hs & Hk & Hr). exists d'. cbn [of_view]. split; [reflexivity|]. split; [exact Hs|]. split; [exact Hk|].
+  rewrite Hr. cbn [step_of]. replace (1 <? 0) with false by lia. reflexivity.
+Qed.
+
+(** the general core: [s0], [s1] are whatever [get_seq_index] answers; they only matter when the window holds a residue *)
+Lemma row_slice_core2 vr r x y a B s0 s1 nm :
+  RowWF r -> 0 <= a -> a <= B -> B <= row_len r ->
+  imap_slice vr (amap r) x y = Ok nm -> IndelMapSpec.WF nm -> abs nm = msub (abs (amap r)) a B ->
+  get_seq_index (amap r) (or0 x) = Ok s0 ->
+  get_seq_index (amap r) (or_len y (len (amap r))) = Ok s1 ->
+  (a < B -> s0 = residues (firstn (Z.to_nat a) (abs (amap r))) /\
+            Z.min s1 (parent_length (amap r)) = residues (firstn (Z.to_nat B) (abs (amap r)))) ->
+  exists r', row_getitem_slice vr r x y = Ok r' /\ RowWF r' /\ skind (adata r') = skind (adata r) /\
+             row_str r' = msub (row_str r) a B.
+Proof.
+  intros (Hm & Hd & Hp) Ha HaB HB E1 Hnm Habs E2 E3 Hs. unfold row_len in HB. destruct r as [m d]. cbn [amap adata] in *.
+  unfold row_getitem_slice. cbn [amap adata]. rewrite E1. cbn [bind]. rewrite E2. cbn [bind]. rewrite E3. cbn [bind].
+  pose proof (parent_length_residues m Hm) as Hpr.
+  pose proof (parent_length_residues nm Hnm) as Hpn. rewrite Habs, residues_msub in Hpn by lia.
+  pose proof (residues_firstn_mono (abs m) a B Ha HaB) as Hmono.
+  pose proof (residues_nonneg' (firstn (Z.to_nat a) (abs m))) as H0.
+  pose proof (residues_firstn_le (abs m) (Z.to_nat B)) as Hle.
+  destruct (parent_length nm =? 0) eqn:Eu; cbn [negb].
+  - destruct (seq_slice_empty d Hd) as (d' & E4 & Hd' & Hk & Hr). rewrite E4. cbn [bind andb].
+    exists (mkRow nm d'). split; [reflexivity|].
+    destruct (row_slice_finish m d nm d' a B Hm Hp Hnm Habs Hd') as [W S]; try lia.
+    { rewrite Hr. replace (residues (firstn (Z.to_nat B) (abs m))) with (residues (firstn (Z.to_nat a) (abs m))) by lia.
+      symmetry. apply msub_empty. }
+    split; [exact W|]. split; [exact Hk|exact S].
+  - assert (HltB : a < B).
+    { destruct (Z.eq_dec a B) as [->|]; [|lia]. lia. }
+    destruct (Hs HltB) as [Es0 Es1].
+    destruct (seq_slice_py d (Some s0) (Some s1) Hd) as (d' & E4 & Hd' & Hk & Hr). rewrite E4. cbn [bind andb].
+    assert (Hle01 : s0 <= s1) by lia.
+    replace (s0 >? s1) with false by lia.
+    rewrite py_slice_clamped in Hr by lia. rewrite <- Hp, Es1, Es0 in Hr.
+    exists (mkRow nm d'). split; [reflexivity|].
+    destruct (row_slice_finish m d nm d' a B Hm Hp Hnm Habs Hd' Hr) as [W S]; try lia.
+    split; [exact W|]. split; [exact Hk|exact S].
+Qed.
+
+(** bounds the class accepts: omitted, or not below [-n]; beyond [n] only once C08-1 is repaired *)
+Definition slice_guard (vr : variant) (n : Z) (o : option Z) : Prop :=
+  match o with None => True | Some v => - n <= v /\ (v <= n \/ v_clamp vr = true) end.
+
+Lemma msub_clamp_both {A} (k : list A) a c : 0 <= a -> a <= c ->
+  msub k a c = msub k (Z.min a (zlen k)) (Z.min c (zlen k)).
+Proof.
+  intros Ha Hac. pose proof (zlen_nonneg k) as Hn. unfold msub.
+  destruct (Z_le_dec a (zlen k)) as [L|L].
+  - replace (Z.min a (zlen k)) with a by lia.
+    destruct (Z_le_dec c (zlen k)) as [L2|L2]; [replace (Z.min c (zlen k)) with c by lia; reflexivity|].
+    replace (Z.min c (zlen k)) with (zlen k) by lia.
+    rewrite !firstn_all2; [reflexivity| |]; rewrite skipn_length; unfold zlen in *; lia.
+  - replace (Z.min a (zlen k)) with (zlen k) by lia. replace (Z.min c (zlen k)) with (zlen k) by lia.
+    rewrite Z.sub_diag. cbn [Z.to_nat firstn].
+    rewrite (skipn_all2 k) by (unfold zlen in *; lia). now rewrite firstn_nil.
+Qed.
+
+Lemma adjust_start_lb n x : 0 <= n -> (match x with None => True | Some v => - n <= v end) ->
+  adjust_bound n 1 false x = Z.min (py_bound n 0 x) n.
+Proof.
+  intros Hn H. unfold adjust_bound, py_bound. replace (1 <? 0) with false by lia.
+  destruct x as [v|]; [|lia].
+  destruct (v <? 0) eqn:E1.
+  - replace (v + n <? 0) with false by lia. lia.
+  - destruct (v >=? n) eqn:E2; lia.
+Qed.
+
+Lemma adjust_stop_lb n y : 0 <= n -> (match y with None => True | Some v => - n <= v end) ->
+  adjust_bound n 1 true y = Z.min (py_bound n n y) n.
+Proof.
+  intros Hn H. unfold adjust_bound, py_bound. replace (1 <? 0) with false by lia.
+  destruct y as [v|]; [|lia].
+  destruct (v <? 0) eqn:E1.
+  - replace (v + n <? 0) with false by lia. lia.
+  - destruct (v >=? n) eqn:E2; lia.
+Qed.
+
+Lemma py_slice_python_lb {A} (l : list A) x y :
+  (match x with None => True | Some v => - zlen l <= v end) ->
+  (match y with None => True | Some v => - zlen l <= v end) ->
+  let a := Z.min (py_bound (zlen l) 0 x) (zlen l) in
+  let b := Z.min (py_bound (zlen l) (zlen l) y) (zlen l) in
+  py_slice l x y 1 = msub l a (Z.max a b).
+Proof.
+  intros Hx Hy a b. pose proof (zlen_nonneg l) as Hn.
+  assert (Ha : 0 <= a <= zlen l).
+  { unfold a, py_bound. destruct x as [v|]; [|lia]. destruct (v <? 0) eqn:E; lia. }
+  assert (Hb : 0 <= b <= zlen l).
+  { unfold b, py_bound. destruct y as [v|]; [|lia]. destruct (v <? 0) eqn:E; lia. }
+  assert (E : py_slice l x y 1 = py_slice l (Some a) (Some b) 1).
+  { rewrite !py_slice_unfold. rewrite (adjust_start_lb _ x Hn Hx), (adjust_stop_lb _ y Hn Hy). fold a b.
+    rewrite (adjust_start_py _ (Some a) Hn), (adjust_stop_py _ (Some b) Hn) by (cbn [in_py_range]; lia).
+    unfold py_bound. replace (a <? 0) with false by lia. replace (b <? 0) with false by lia. reflexivity. }
+  rewrite E. destruct (Z_le_dec a b) as [Le|Gt].
+  - replace (Z.max a b) with b by lia. apply py_slice_msub; lia.
+  - replace (Z.max a b) with a by lia. rewrite msub_empty. rewrite py_slice_unfold.
+    rewrite (adjust_start_py _ (Some a) Hn), (adjust_stop_py _ (Some b) Hn) by (cbn [in_py_range]; lia).
+    unfold py_bound. replace (a <? 0) with false by lia. replace (b <? 0) with false by lia.
+    rewrite range_len_pos_empty by lia. reflexivity.
+Qed.
+
+(** HEADLINE (row, repaired C08-1): every bound not below [-len], Python clamping of bounds beyond the end *)
+Lemma row_slice_clamped vr r x y : RowWF r -> v_clamp vr = true ->
+  (match x with None => True | Some v => - row_len r <= v end) ->
+  (match y with None => True | Some v => - row_len r <= v end) ->
+  exists r', row_getitem_slice vr r x y = Ok r' /\ RowWF r' /\ skind (adata r') = skind (adata r) /\
+             row_str r' = py_slice (row_str r) x y 1.
+Proof.
+  intros Hr Hv Hx Hy. pose proof Hr as (Hm & Hd & Hp). pose proof (zlen_row_str r Hr) as Hl.
+  rewrite py_slice_python_lb by (rewrite Hl; assumption). rewrite Hl. unfold row_len in *.
+  set (n := len (amap r)) in *.
+  assert (Hn : 0 <= n) by (unfold n; rewrite <- (zlen_abs_len _ Hm); apply zlen_nonneg).
+  set (a := py_bound n 0 x). set (b := py_bound n n y).
+  assert (Ha : 0 <= a) by (unfold a, py_bound; destruct x as [v|]; [destruct (v <? 0) eqn:E; lia|lia]).
+  assert (Hb : 0 <= b) by (unfold b, py_bound; destruct y as [v|]; [destruct (v <? 0) eqn:E; lia|lia]).
+  destruct (slice_v2_spec (amap r) x y Hm Ha Hb) as (nm & E1 & Hnm & Habs). fold n a b in Habs.
+  assert (E1' : imap_slice vr (amap r) x y = Ok nm) by (unfold imap_slice; rewrite Hv; exact E1).
+  rewrite (msub_clamp_both (abs (amap r)) a (Z.max a b)) in Habs by lia. rewrite (zlen_abs_len _ Hm) in Habs. fold n in Habs.
+  replace (Z.min (Z.max a b) n) with (Z.max (Z.min a n) (Z.min b n)) in Habs by lia.
+  pose proof (parent_length_residues _ Hm) as Hpr.
+  assert (Hfull : residues (firstn (Z.to_nat n) (abs (amap r))) = parent_length (amap r)).
+  { rewrite Hpr. unfold n. rewrite <- (zlen_abs_len _ Hm). apply residues_firstn_all. }
+  (* what get_seq_index answers for the start *)
+  assert (E2 : exists s0, get_seq_index (amap r) (or0 x) = Ok s0 /\
+                          (a <= n -> s0 = residues (firstn (Z.to_nat a) (abs (amap r))))).
+  { destruct x as [v|]; cbn [or0].
+    - assert (Ea : a = if v <? 0 then n + v else v) by reflexivity.
+      destruct (v <? 0) eqn:Ev.
+      + eexists. split; [apply (get_seq_index_neg (amap r) Hm v); fold n; lia|]. intros _. rewrite Ea. reflexivity.
+      + destruct (Z_le_dec v n) as [L|L].
+        * eexists. split; [apply (get_seq_index_spec (amap r) Hm v); fold n; lia|]. intros _. rewrite Ea. reflexivity.
+        * eexists. split; [apply (get_seq_index_beyond (amap r) v Hm); fold n; lia|]. intros. lia.
+    - eexists. split; [apply (get_seq_index_spec (amap r) Hm 0); fold n; lia|]. intros _. reflexivity. }
+  destruct E2 as (s0 & E2 & Hs0).
+  assert (E3 : exists s1, get_seq_index (amap r) (or_len y n) = Ok s1 /\
+                          (Z.min a n < Z.max (Z.min a n) (Z.min b n) ->
+                           Z.min s1 (parent_length (amap r)) = residues (firstn (Z.to_nat (Z.max (Z.min a n) (Z.min b n))) (abs (amap r))))).
+  { pose proof (residues_firstn_le (abs (amap r))) as Hle.
+    destruct y as [v|]; cbn [or_len].
+    - assert (Eb : b = if v <? 0 then n + v else v) by reflexivity.
+      destruct (v =? 0) eqn:E0.
+      + eexists. split; [apply (get_seq_index_spec (amap r) Hm n); fold n; lia|].
+        intros Hlt. exfalso. replace (v <? 0) with false in Eb by lia. lia.
+      + destruct (v <? 0) eqn:Ev.
+        * eexists. split; [apply (get_seq_index_neg (amap r) Hm v); fold n; lia|].
+          intros Hlt. replace (Z.max (Z.min a n) (Z.min b n)) with (n + v) by lia. fold n.
+          specialize (Hle (Z.to_nat (n + v))). lia.
+        * destruct (Z_le_dec v n) as [L|L].
+          -- eexists. split; [apply (get_seq_index_spec (amap r) Hm v); fold n; lia|].
+             intros Hlt. replace (Z.max (Z.min a n) (Z.min b n)) with v by lia.
+             specialize (Hle (Z.to_nat v)). lia.
+          -- eexists. split; [apply (get_seq_index_beyond (amap r) v Hm); fold n; lia|].
+             intros Hlt. replace (Z.max (Z.min a n) (Z.min b n)) with n by lia. fold n. lia.
+    - assert (Eb : b = n) by reflexivity.
+      eexists. split; [apply (get_seq_index_spec (amap r) Hm n); fold n; lia|].
+      intros Hlt. replace (Z.max (Z.min a n) (Z.min b n)) with n by lia. lia. }
+  destruct E3 as (s1 & E3 & Hs1).
+  apply (row_slice_core2 vr r x y (Z.min a n) (Z.max (Z.min a n) (Z.min b n)) s0 s1 nm Hr); try assumption; try lia.
+  - unfold row_len. fold n. lia.
+  - intros Hlt. split; [|apply Hs1, Hlt]. replace (Z.min a n) with a by lia. apply Hs0. lia.
+Qed.
+
+Lemma row_slice_any vr r x y : RowWF r -> slice_guard vr (row_len r) x -> slice_guard vr (row_len r) y ->
+  exists r', row_getitem_slice vr r x y = Ok r' /\ RowWF r' /\ skind (adata r') = skind (adata r) /\
+             row_str r' = py_slice (row_str r) x y 1.
+Proof.
+  intros Hr Hx Hy. destruct (v_clamp vr) eqn:Ev.
+  - apply row_slice_clamped; try assumption.
+    + destruct x as [v|]; [apply Hx|exact I].
+    + destruct y as [v|]; [apply Hy|exact I].
+  - apply row_slice_python; [exact Hr| |].
+    + destruct x as [v|]; [|exact I]. cbn [slice_guard in_py_range] in *. destruct Hx as [H1 [H2|H2]]; [lia|congruence].
+    + destruct y as [v|]; [|exact I]. cbn [slice_guard in_py_range] in *. destruct Hy as [H1 [H2|H2]]; [lia|congruence].
+Qed.
+
 (** ** uniform (length-determined) string functions *)
 Lemma uniform_py_slice x y c : c <> 0 -> uniform (fun s => py_slice s x y c).
 Proof. intros Hc s1 s2 H. rewrite !length_py_slice by exact Hc. now rewrite H. Qed.
@@ -1044,13 +1253,13 @@ Proof. intros _ W H. now rewrite <- (zlen_row_str r W). Qed.
 
 (** ** the operations, one by one *)
 
-Lemma al_slice_spec vr a x y : AlnWF a -> in_py_range (slen (astr a)) x -> in_py_range (slen (astr a)) y ->
+Lemma al_slice_spec vr a x y : AlnWF a -> slice_guard vr (slen (astr a)) x -> slice_guard vr (slen (astr a)) y ->
   exists a', al_slice vr a x y = Ok a' /\ AlnWF a' /\ al_kind a' = al_kind a /\
              astr a' = map_rows (fun s => py_slice s x y 1) (astr a) /\ map fst a' = map fst a.
 Proof.
   intros Ha Hx Hy. unfold al_slice.
   apply (map_rowsM_spec _ (fun s => py_slice s x y 1) (al_kind a) a Ha); [apply uniform_py_slice; lia|].
-  intros r W K L. destruct (row_slice_python vr r x y W) as (r' & E & W' & K' & S).
+  intros r W K L. destruct (row_slice_any vr r x y W) as (r' & E & W' & K' & S).
   - rewrite (AlnWF_row_len a r Ha W L). exact Hx.
   - rewrite (AlnWF_row_len a r Ha W L). exact Hy.
   - exists r'. split; [exact E|]. split; [exact W'|]. split; [congruence|exact S].
@@ -1083,6 +1292,15 @@ Proof.
   exists r'. split; [exact E|]. split; [exact W'|]. split; [congruence|]. rewrite S, K. reflexivity.
 Qed.
 
+Lemma al_rc_err a : AlnWF a -> al_kind a = KOther -> bind (map_rowsM row_rc a) mk_align = Err E_Type.
+Proof.
+  intros Ha Hk. pose proof Ha as (Hne & Hwf & _). destruct a as [|[n r] t]; [congruence|].
+  inversion Hwf as [|? ? [W K] _]; subst. cbn [snd al_kind] in *.
+  unfold map_rowsM. cbn [mapM snd]. unfold row_rc.
+  destruct (nrev_spec _ (proj1 W)) as (nm & E1 & _). rewrite E1. cbn [bind].
+  cbn [View.apply_op]. rewrite Hk. reflexivity.
+Qed.
+
 Lemma al_to_kind_spec a target : AlnWF a -> al_kind a <> KOther -> target <> KOther ->
   exists a', bind (map_rowsM (fun r => row_to_kind r target) a) mk_align = Ok a' /\ AlnWF a' /\ al_kind a' = target /\
              astr a' = map_rows (match al_kind a, target with
@@ -1109,20 +1327,35 @@ Proof.
     rewrite S. unfold map_rows. rewrite <- (map_id (astr a)) at 2. apply map_ext. intros [? ?]; reflexivity.
 Qed.
 
-Lemma pick_spec vr r cols : RowWF r -> Forall (fun i => 0 <= i < row_len r) cols ->
+Definition idx_ok (vr : variant) (n i : Z) : Prop := (if v_negidx vr then - n <= i else 0 <= i) /\ i < n.
+Definition norm_idx (n i : Z) : Z := if i <? 0 then i + n else i.
+
+Lemma pick_spec vr r cols : RowWF r -> Forall (idx_ok vr (row_len r)) cols ->
   concatM (map (fun i => bind (row_getitem_int vr r i) (fun r' => Ok (row_gapped r'))) cols)
-  = Ok (take_cols cols (row_str r)).
+  = Ok (take_cols (map (norm_idx (row_len r)) cols) (row_str r)).
 Proof.
-  intros W H. unfold take_cols. apply concatM_ok. intros i Hi. rewrite Forall_forall in H.
-  destruct (row_getitem_int_spec vr r i W (H i Hi)) as (r' & E & W' & _ & S). rewrite E. cbn [bind].
-  now rewrite (row_gapped_spec r' W'), S.
+  intros W H. unfold take_cols. rewrite flat_map_concat_map, map_map, <- flat_map_concat_map.
+  apply concatM_ok. intros i Hi. rewrite Forall_forall in H. destruct (H i Hi) as [Hlo Hhi]. unfold norm_idx.
+  destruct (i <? 0) eqn:Ei.
+  - destruct (v_negidx vr) eqn:Ev; [|lia].
+    destruct (row_getitem_int_neg vr r i W Ev ltac:(lia)) as (r' & E & W' & _ & S). rewrite E. cbn [bind].
+    now rewrite (row_gapped_spec r' W'), S.
+  - destruct (row_getitem_int_spec vr r i W ltac:(lia)) as (r' & E & W' & _ & S). rewrite E. cbn [bind].
+    now rewrite (row_gapped_spec r' W'), S.
+Qed.
+
+Lemma norm_idx_id n cols : Forall (fun i => 0 <= i < n) cols -> map (norm_idx n) cols = cols.
+Proof.
+  induction 1 as [|i l Hi _ IH]; [reflexivity|]. cbn [map]. rewrite IH. unfold norm_idx.
+  replace (i <? 0) with false by lia. reflexivity.
 Qed.
 
 Lemma al_take_positions_spec vr a cols negate : AlnWF a ->
-  Forall (fun i => 0 <= i < slen (astr a)) cols ->
+  (negate = false -> Forall (idx_ok vr (slen (astr a))) cols) ->
   (negate = true -> v_negate_ok vr = true \/ al_kind a = KOther) ->
   exists a', al_take_positions vr a cols negate = Ok a' /\ AlnWF a' /\ al_kind a' = al_kind a /\
-             astr a' = map_rows (if negate then drop_cols cols else take_cols cols) (astr a) /\ map fst a' = map fst a.
+             astr a' = map_rows (if negate then drop_cols cols else take_cols (map (norm_idx (slen (astr a))) cols)) (astr a) /\
+             map fst a' = map fst a.
 Proof.
   intros Ha Hc Hn. unfold al_take_positions.
   apply (rebuild_rows_spec (al_kind a) a
@@ -1132,17 +1365,20 @@ Proof.
                             (fun s => if negb (v_negate_ok vr) && match al_kind a with KOther => false | _ => true end
                                       then Err E_Type else Ok s)
                      else concatM (map (fun i => bind (row_getitem_int vr r i) (fun r' => Ok (row_gapped r'))) cols))
-           (if negate then drop_cols cols else take_cols cols) Ha).
+           (if negate then drop_cols cols else take_cols (map (norm_idx (slen (astr a))) cols)) Ha).
   - destruct negate; [apply uniform_drop_cols|apply uniform_take_cols].
   - intros r W K L. pose proof (AlnWF_row_len a r Ha W L) as Hl. destruct negate.
     + rewrite (pick_spec vr r _ W).
-      2:{ apply Forall_forall. intros i Hi. apply filter_In in Hi. destruct Hi as [Hi _]. apply zrange_In in Hi. exact Hi. }
+      2:{ apply Forall_forall. intros i Hi. apply filter_In in Hi. destruct Hi as [Hi _]. apply zrange_In in Hi.
+          unfold idx_ok. destruct (v_negidx vr); lia. }
       cbn [bind].
       assert (E : negb (v_negate_ok vr) && match al_kind a with KOther => false | _ => true end = false).
       { destruct (Hn eq_refl) as [-> | ->]; [reflexivity|apply andb_false_r]. }
-      rewrite E. f_equal. unfold take_cols, drop_cols. rewrite flat_map_filter.
+      rewrite E. f_equal. rewrite norm_idx_id.
+      2:{ apply Forall_forall. intros i Hi. apply filter_In in Hi. destruct Hi as [Hi _]. apply zrange_In in Hi. exact Hi. }
+      unfold take_cols, drop_cols. rewrite flat_map_filter.
       rewrite <- (zlen_row_str r W). apply flat_map_ext. intros i. now destruct (zmem i cols).
-    + apply pick_spec; [exact W|]. rewrite Hl. exact Hc.
+    + rewrite <- Hl. apply pick_spec; [exact W|]. rewrite Hl. apply Hc. reflexivity.
 Qed.
 
 Lemma al_sample_spec vr a locs m : AlnWF a -> 0 < m ->
@@ -1192,8 +1428,12 @@ Lemma al_degaprel_spec vr a x ref : AlnWF a -> find_orow x a = Some ref ->
 Proof.
   intros Ha Hf g. destruct (AlnWF_In a x ref Ha (find_orow_In _ _ _ Hf)) as (W & K & L).
   subst g. rewrite (row_gapped_spec ref W).
-  apply (al_take_positions_spec vr a _ false Ha); [|discriminate].
-  apply Forall_forall. intros i Hi. apply filter_In in Hi. destruct Hi as [Hi _]. apply zrange_In in Hi. lia.
+  destruct (al_take_positions_spec vr a (nongap_cols (row_str ref)) false Ha) as (a' & E & W' & K' & S & N); [|discriminate|].
+  - intros _. apply Forall_forall. intros i Hi. apply filter_In in Hi. destruct Hi as [Hi _]. apply zrange_In in Hi.
+    unfold idx_ok. destruct (v_negidx vr); lia.
+  - exists a'. split; [exact E|]. split; [exact W'|]. split; [exact K'|]. split; [|exact N].
+    rewrite S. rewrite norm_idx_id; [reflexivity|].
+    apply Forall_forall. intros i Hi. apply filter_In in Hi. destruct Hi as [Hi _]. apply zrange_In in Hi. lia.
 Qed.
 
 Lemma slen_nonneg a : 0 <= slen a.
@@ -1232,8 +1472,8 @@ Proof.
   apply andb_prop in Hc. destruct Hc as [H1 H2].
   destruct (window_in_range (slen (astr a)) w st i ltac:(lia) ltac:(lia) ltac:(lia) ltac:(lia)) as [B1 B2].
   destruct (al_slice_spec vr a (Some (i * st)) (Some (i * st + w)) Ha) as (a' & E & W & K & S & N).
-  { cbn [in_py_range]. lia. }
-  { cbn [in_py_range]. lia. }
+  { cbn [slice_guard]. lia. }
+  { cbn [slice_guard]. lia. }
   exists a'. split; [exact E|]. split; [exact W|]. split; [exact K|]. split; [|exact N].
   rewrite S. apply (map_rows_ext_len _ _ (slen (astr a))); [apply Ha|].
   intros s Hs. apply py_slice_msub; lia.
@@ -1498,16 +1738,18 @@ Qed.
 Definition op_ok (vr : variant) (k : kind) (s : salign) (o : aop) : Prop :=
   let n := slen s in
   match o with
-  | OSlice x y => in_py_range n x /\ in_py_range n y
+  | OSlice x y => slice_guard vr n x /\ slice_guard vr n y
   | OSliceStep _ _ _ => False
   | OIndex i => (if v_negidx vr then - n <= i else 0 <= i) /\ i < n
-  | ORc => k <> KOther
+  | ORc => True
   | OAddSelf => v_noshortcut vr = true
   | OAddRows rows => exists m, Forall (fun t => zlen t = m) rows
-  | OAddSlices x y x' y' => (- n <= x <= n /\ - n <= y <= n) /\ (- n <= x' <= n /\ - n <= y' <= n)
-  | OTakePos cols negate => Forall (fun i => 0 <= i < n) cols /\ (negate = true -> v_negate_ok vr = true \/ k = KOther)
+  | OAddSlices x y x' y' => (slice_guard vr n (Some x) /\ slice_guard vr n (Some y)) /\
+                            (slice_guard vr n (Some x') /\ slice_guard vr n (Some y'))
+  | OTakePos cols negate => (negate = false -> Forall (idx_ok vr n) cols) /\
+                            (negate = true -> v_negate_ok vr = true \/ k = KOther)
   | OTakeSeqs _ _ => True
-  | OFilter _ _ => True
+  | OFilter _ m => 0 < m
   | ODegapRel _ => True
   | OSample locs m => 0 < m /\ Forall (fun l => 0 <= l /\ (l + 1) * m <= n) locs
   | OToRna | OToDna => k <> KOther
@@ -1518,12 +1760,11 @@ Definition op_ok (vr : variant) (k : kind) (s : salign) (o : aop) : Prop :=
 Lemma zlen_astr a : zlen (astr a) = zlen a.
 Proof. unfold astr. apply zlen_map. Qed.
 
-Lemma existsb_in_range n cols : Forall (fun i => 0 <= i < n) cols ->
-  existsb (fun i => (i <? - n) || (i >=? n)) cols = false /\ map (fun i => if i <? 0 then i + n else i) cols = cols.
+Lemma existsb_in_range vr n cols : Forall (idx_ok vr n) cols ->
+  existsb (fun i => (i <? - n) || (i >=? n)) cols = false /\ map (fun i => if i <? 0 then i + n else i) cols = map (norm_idx n) cols.
 Proof.
-  induction 1 as [|i l Hi _ [IH1 IH2]]; [split; reflexivity|]. cbn [existsb map]. rewrite IH1, IH2.
-  replace (i <? - n) with false by lia. replace (i >=? n) with false by lia. replace (i <? 0) with false by lia.
-  split; reflexivity.
+  intros H. split; [|reflexivity]. induction H as [|i l [Hlo Hhi] _ IH]; [reflexivity|]. cbn [existsb]. rewrite IH.
+  replace (i >=? n) with false by lia. destruct (v_negidx vr); replace (i <? - n) with false by lia; reflexivity.
 Qed.
 
 Lemma map_fst_len {A B} (a : list (Z * A)) (b : list (Z * B)) : map fst a = map fst b -> zlen a = zlen b.
@@ -1556,8 +1797,9 @@ Proof.
     rewrite E0.
     destruct (al_index_spec vr a i Ha Hlo Hhi) as (a' & E & W & K & S & _). exists a'. auto.
   - (* rc *)
-    destruct (al_kind a) eqn:Ek; try congruence; cbn [nucleic_kind];
-      destruct (al_rc_spec a Ha ltac:(congruence)) as (a' & E & W & K & S & _); exists a'; rewrite Ek in *; auto.
+    destruct (al_kind a) eqn:Ek; cbn [nucleic_kind];
+      try (destruct (al_rc_spec a Ha ltac:(congruence)) as (a' & E & W & K & S & _); exists a'; rewrite Ek in *; auto; fail).
+    apply (al_rc_err a Ha Ek).
   - (* aln + aln *)
     destruct (al_add_spec vr true a a Ha (AlnWF_rows a Ha) Hr eq_refl (or_intror Hok)) as (c & E & W & K & S & _).
     exists c. rewrite zip_app_self in S. auto.
@@ -1587,7 +1829,7 @@ Proof.
     destruct (al_take_positions_spec vr a cols negate Ha Hc Hn) as (a' & E & W & K & S & _).
     destruct negate.
     + exists a'. auto.
-    + destruct (existsb_in_range _ _ Hc) as [E1 E2]. rewrite E1, E2. exists a'. auto.
+    + destruct (existsb_in_range vr _ _ (Hc eq_refl)) as [E1 E2]. rewrite E1, E2. exists a'. auto.
   - (* take_seqs *)
     destruct negate.
     + pose proof (al_takeseqs_negate_spec a names Ha) as H.
@@ -1603,7 +1845,7 @@ Proof.
       eexists. split; [exact E|]. split; [exact W|]. split; [exact K|exact S].
   - (* filtered *)
     destruct (m <=? 0) eqn:Em.
-    + unfold al_filtered. rewrite Em. reflexivity.
+    + lia.
     + pose proof (al_filtered_spec vr a p m Ha ltac:(lia)) as H.
       destruct (kept_motifs p m (astr a)) as [|j js]; [exact H|].
       destruct H as (a' & E & W & K & S & _). exists a'. auto.
@@ -1736,7 +1978,7 @@ Proof.
     cbn [chain_ok].
     repeat match goal with |- context [spec_keep (?k, ?r) ?o] =>
       let v := eval vm_compute in (spec_keep (k, r) o) in change (spec_keep (k, r) o) with v end.
-    cbn [op_ok fst snd in_py_range]. cbn.
+    cbn [op_ok fst snd slice_guard]. unfold idx_ok. cbn.
     repeat split; try lia; try discriminate; try (intros; discriminate); repeat constructor; try lia.
 Qed.
 
